@@ -16,7 +16,7 @@ BASE_FEAT = dict(
     ann={"c": 6, "o": 1.2, "u": 1.5, "x": 0.7, "h": 0.7, "d": 0.7, "i": 0.4,
          "ph": 0.4, "ss": 0.3},
     bodies={"leaf": 4, "next": 3, "rec": 1.5, "fnext": 0.5, "next2": 0.3,
-            "next_other": 0.4, "rec_next": 0.4},
+            "next_other": 0.4, "rec_next": 0.4, "next_try": 0.5},
     p_kw=0.2,
     p_optional=0.2,
     p_prio=0.3,
@@ -300,8 +300,14 @@ def gen_call(rng, spec, odd_shapes=True):
             fl = "type"  # a class object where instances are expected
         args.append(gen_value(rng, spec, fl))
     c = {"args": args}
+    if not meta.get("mixed") and args and n == meta["max_ar"] and rng.random() < 0.08 \
+            and not meta.get("self"):
+        # the last positional argument by keyword (documented to work when all methods use the
+        # same positional names)
+        c["kw"] = {f"a{n - 1}": args[-1]}
+        c["args"] = args[:-1]
     if meta["has_kw"] and rng.random() < 0.6:
-        c["kw"] = {"k0": gen_value(rng, spec, meta.get("kw_flavour", "cls"))}
+        c.setdefault("kw", {})["k0"] = gen_value(rng, spec, meta.get("kw_flavour", "cls"))
     if meta.get("has_kw2") and rng.random() < 0.6:
         kw = c.setdefault("kw", {})
         kw["k1"] = gen_value(rng, spec, "cls")
